@@ -35,19 +35,22 @@ func c11GenCfg(rng *kit.RNG, g int) c11Cfg {
 	cfg.CleanMode = "forced"
 	steps := []string{"compact", "evict", "pause", "restart"}
 	switch x := rng.Intn(10); {
-	case x < 3:
+	case x < 2:
 		// The log's own cleaner ticker (which also rolls a full active
 		// segment).  Close() does not wait for a cleaner pass in progress, so
 		// these histories do not stop or pause the log (that schedule is the
 		// subject of the closerace unit).
 		cfg.CleanMode = "ticker"
-		steps = []string{"compact", "evict", "compact"}
-		if cfg.SegBytes < 1500 {
-			// every cleaner pass rewrites every segment; with hundreds of
-			// tiny segments the passes would run back to back
-			cfg.SegBytes = 1500
+		// Every cleaner pass rewrites every segment, and while a pass runs
+		// FetchCursor that has to read the log fails (it gets segments the
+		// cleaner has already replaced).  Keep the log short so that passes
+		// are short: fewer operations, no eviction step.
+		steps = []string{"compact", "compact"}
+		cfg.Ops = (total * 2 / 3) / cfg.Clients
+		if cfg.SegBytes < 600 {
+			cfg.SegBytes = 600
 		}
-	case x < 5:
+	case x < 4:
 		// The auto-pause timer closes the log whenever the partition has been
 		// idle; a forced Clean() could not be kept apart from it, so these
 		// histories do not compact (pause on a compacted log is covered by
@@ -101,7 +104,7 @@ func c11NewSingle(rep *kit.Report, unit string, seed uint64, cfg c11Cfg) (*c11En
 		c.CursorsStream.AutoPauseTime = cfg.AutoPause
 		c.Streams.SegmentMaxBytes = cfg.SegBytes
 		if cfg.CleanMode == "ticker" {
-			c.Streams.CleanerInterval = 700 * time.Millisecond
+			c.Streams.CleanerInterval = time.Second
 		} else {
 			c.Streams.CleanerInterval = time.Hour
 		}
@@ -231,6 +234,9 @@ func TestVerifC11Single(t *testing.T) {
 		seed := root.Uint64()
 		if g%shards != shard {
 			continue
+		}
+		if only := os.Getenv("C11_ONLY_HISTORY"); only != "" && only != fmt.Sprint(seed) {
+			continue // replaying one history (its seed is in every witness)
 		}
 		if rep.NumViolations() >= 4 {
 			break
